@@ -225,9 +225,10 @@ type pkgSpec struct {
 	Blank    int          `json:"blank_v,omitempty"`
 	Extra    int          `json:"extra_globals,omitempty"` // unrelated globals inserted at the top (a don't-care edit)
 	Predecl  bool         `json:"predeclared_globals,omitempty"`
-	LoadsBld []string     `json:"loads_build,omitempty"` // other packages' BUILD.dawn loaded (C06)
-	LoadsMod []int        `json:"loads_mod,omitempty"`   // helper modules loaded explicitly (C06)
-	LoadsExt []int        `json:"loads_ext,omitempty"`   // required projects whose lib.dawn is loaded explicitly
+	LoadsBld []string     `json:"loads_build,omitempty"`    // other packages' BUILD.dawn loaded (C06)
+	LoadsMod []int        `json:"loads_mod,omitempty"`      // helper modules loaded explicitly (C06)
+	LoadsExt []int        `json:"loads_ext,omitempty"`      // required projects whose lib.dawn is loaded explicitly
+	LoadsUtl []int        `json:"loads_ext_util,omitempty"` // required projects whose second module (util.dawn) is loaded directly
 	Yields   int          `json:"yields,omitempty"`
 }
 
@@ -395,6 +396,11 @@ func (p *projSpec) renderBuild(pk *pkgSpec) string {
 	for e := range p.Exts {
 		if usedExt[e] {
 			fmt.Fprintf(&sb, "load(\"%s//:lib.dawn\", \"ext%d_f\", \"EXT%d_K\")\n", extAlias(e), e, e)
+		}
+	}
+	for _, e := range pk.LoadsUtl {
+		if e < len(p.Exts) && p.Exts[e].Util {
+			fmt.Fprintf(&sb, "load(\"%s//:util.dawn\", \"EXT%d_U\")\n", extAlias(e), e)
 		}
 	}
 	for i, l := range pk.LoadsBld {
